@@ -105,7 +105,10 @@ def run_verus(gen, workdir, rlimit=None, extra_args=(), timeout=3600, threads=No
         res["total_ms"] = tm.get("total", 0)
         for mod in tm.get("smt", {}).get("smt-run-module-times", []):
             for fb in mod.get("function-breakdown", []):
-                res["functions"][fb["function"]] = {"ok": fb.get("success", False),
+                fname = fb["function"]
+                if "::" in fname:  # crate name (= file name, differs per shard) -> unit name
+                    fname = gen.unit + "::" + fname.split("::", 1)[1]
+                res["functions"][fname] = {"ok": fb.get("success", False),
                                                     "ms": fb.get("time", 0), "mode": fb.get("mode:", "")}
     else:
         res["undecided"].append({"reason": "no-json", "detail": err[-2000:]})
